@@ -2,7 +2,7 @@
 # usage: tools/matrix.sh [seed-root]  — runs every check against every seeded change; prints a matrix (1 = alarm).
 ROOT=${1:-/verif/seeded}
 PROPS="C01 C02 C03 C04 C05 C06 C07 C08 C09 C10 C11 C12 C13 C14 C15 C16 C17 C18 C19 C20"
-WT=/tmp/scratch/matrixwt
+WT=${MATRIX_WT:-/tmp/scratch/matrixwt}
 git -C /repo worktree remove --force $WT 2>/dev/null
 git -C /repo worktree add -q --detach $WT HEAD || exit 2
 printf "%-8s" seed; for p in $PROPS; do printf " %s" ${p#C}; done; echo
